@@ -44,7 +44,7 @@ func c18GenOp(t *rapid.T) c18Op {
 	switch op.Op {
 	case "request":
 		op.Kind = rapid.SampledFrom([]string{"plain", "cookie", "health", "slow", "upgrade", "post"}).Draw(t, "kind")
-	case "rollout-set":
+	case "rollout-set", "flap":
 		op.Pct = rapid.IntRange(0, 100).Draw(t, "pct")
 	}
 	return op
@@ -156,7 +156,12 @@ func c18Run(t *testing.T, p c18Plan) (res vfResult) {
 							r.GetCertificate(&tlsHello)
 						case "flap":
 							tg := w.target(vfActivePool[op.Target%len(vfActivePool)])
-							tg.setProbeScript([]vfProbeStep{{Kind: "status", Status: 500}, {Kind: "refuse"}}, vfProbeStep{Kind: "ok"})
+							if op.Pct%2 == 0 {
+								tg.setProbeScript([]vfProbeStep{{Kind: "status", Status: 500}, {Kind: "refuse"}}, vfProbeStep{Kind: "ok"})
+							} else {
+								// the verdict (500) is in, the probe is still busy with the body when whatever comes next happens
+								tg.setProbeScript([]vfProbeStep{{Kind: "status-stall", Status: 500}, {Kind: "status-stall", Status: 500}}, vfProbeStep{Kind: "ok"})
+							}
 						case "wait":
 							time.Sleep(time.Duration(50+op.Target*100) * time.Millisecond)
 						case "request":
@@ -224,7 +229,7 @@ func c18Run(t *testing.T, p c18Plan) (res vfResult) {
 		}
 		// still alive and consistent: list works, a deploy still works
 		r.ListActiveServices()
-		if err := deploy(r, "s2", 0); err != nil && vfErrClass(err) != "host-in-use" {
+		if err := deploy(r, "s2", 0); err != nil && vfErrClass(err) != "host-in-use" && vfErrClass(err) != "unhealthy" { // (a flapped target may still be failing)
 			res.failf("dead-after-storm", "a deploy after the concurrent phase failed: %v", err)
 			return
 		}
